@@ -3,6 +3,7 @@
 #define VERIF_RUNSIM_H
 #include "../core/seams.h"
 #include "../core/driver.h"
+#include "CppUTest/TestPlugin.h"
 
 namespace rs {
 using namespace vf;
@@ -48,7 +49,7 @@ const char* kindName(int k);
 int kindFromName(const char* s);
 
 enum { PH_SETUP = 0, PH_BODY = 1, PH_TEARDOWN = 2, PH_PRE = 3, PH_POST = 4, PH_PROC = 5 };
-enum { N_SLOTS = 48, N_TARGETS = 8, N_VALUES = 6, MAX_SET = 32 };
+enum { N_SLOTS = 48, N_TARGETS = 8, N_VALUES = 6, MAX_SET = SetPointerPlugin::MAX_SET };      // the documented limit is the library's own constant
 enum { N_PASS_KINDS = 15, N_FAILCPP_KINDS = 29, N_FAILC_KINDS = 20 };
 // Operand pairs for the string comparisons of K_FAIL_CPP kinds 24..27 (b = pair): the operands differ first at index 'at'. Several pairs differ only in
 // bytes whose printed forms coincide (every byte above 0x7f is rendered alike), contain control characters, are empty or long.
